@@ -112,6 +112,11 @@ def execute(spec):
         # one adapted function per numpy function and process, as a program would keep it
         fn = _ADAPTED.get(spec["fn"]) or _ADAPTED.setdefault(spec["fn"], einx.numpy.adapt_numpylike_reduce(getattr(np, spec["fn"][6:])))
         kw.pop("backend", None)
+    elif spec["fn"] == "adaptel:copysign":
+        # an adapted element-wise function with a keyword-only option whose SIGN matters (0.0 == -0.0 in Python)
+        fn = _ADAPTED.get(spec["fn"]) or _ADAPTED.setdefault(
+            spec["fn"], einx.numpy.adapt_numpylike_elementwise(lambda x, y, *, s=1.0: np.copysign(x, s) + y * 2.0))
+        kw.pop("backend", None)
     else:
         fn = getattr(einx, spec["fn"])
     blocks = [einx.backend.get(b) for b in spec["blocks"]]
@@ -260,6 +265,17 @@ def typed_scalar_history(rng):
             out.append({"fn": "roll", "desc": "a [b]", "args": [("arr", x.tolist(), str(x.dtype))], "kwargs": {"shift": (kind, v)}, "graph": rng.random() < 0.5,
                         "backend": None, "blocks": []})
     return out
+
+
+def signed_zero_history(rng):
+    """an option that differs from an earlier one only in the sign of zero (0.0 == -0.0, equal hashes) - in both orders, also as
+    graph text: every call is treated as if it were the first"""
+    x = np.arange(1, 4).astype("float64")
+    vals = [0.0, -0.0] if rng.random() < 0.5 else [-0.0, 0.0]
+    vals = vals + [vals[0], 2.0, -2.0]
+    g = rng.random() < 0.3
+    return [{"fn": "adaptel:copysign", "desc": "a, a -> a", "args": [("arr", x.tolist(), "float64"), ("arr", x.tolist(), "float64")],
+             "kwargs": {"s": ("float", v)}, "graph": g, "backend": None, "blocks": []} for v in vals]
 
 
 def gen_history(rng):
@@ -442,6 +458,7 @@ def run(ctx):
     hs = [gen_history(ctx.rng)[: (14 if ctx.tier == "quick" else 30)] for _ in range(n)]
     hs += [adapter_history(ctx.rng) for _ in range(3 if ctx.tier == "quick" else 40)]
     hs += [typed_scalar_history(ctx.rng) for _ in range(4 if ctx.tier == "quick" else 40)]
+    hs += [signed_zero_history(ctx.rng) for _ in range(2 if ctx.tier == "quick" else 8)]
     keys = {}
 
     def alone(sp):
